@@ -186,7 +186,7 @@ def rc_leaf(tracking, eol='lf_crlf', look=False, progress=False, pos=True, extra
     if look:
         c.add(E('ITER_UNCHANGED(%s)' % param, 'RC-LOOK', ('C02',)))
     if progress:
-        c.add(E('RET ==> PROGRESS(%s)' % param, 'RC-PROGRESS', ('C11',)))
+        c.add(E('RET ==> PROGRESS(%s)' % param, 'RC-PROGRESS', ('C10', 'C09')))   # documented: the rule consumes; the C11 premise is c11_leaf(), from the real traits
     if pos and tracking == 'eager':
         c.add(E('RET ==> POS_AGREE(%s, %s)' % (param, EOLCH[eol]), 'RC-POS', ('C06',)))
     for x in extra:
@@ -222,6 +222,8 @@ def comb_prelude(tracking, base='_b0'):
 #define T_NONE (-1)
 int g_turn; size_t g_pos; int g_done; size_t g_iter; int g_last;   /* g_last: index of the sub-rule called last */
 int g_called[NR]; int g_ok[NR]; size_t g_len[NR]; size_t g_ncalls[NR];
+int g_ae[NR]; int g_re[NR]; size_t g_lp[NR];   /* C11: sub-rule i was called at the combinator's entry position / called again at the position of its previous call / position of its last call */
+int g_c[NR];   /* C11 premise: g_c[i] != 0 means "sub-rule i consumes whenever it succeeds" (unconstrained, never assigned) */
 unsigned long g_exc_obj; int g_exc_type;
 size_t g_e_off, g_e_byte, g_e_line, g_e_col;          /* entry iterator of the combinator under proof */
 #define VALID_STUB(in) (__CPROVER_r_ok(in,sizeof(*(in))) && PTRS_OK(in) && CNT_POS(in) && CNT_LT63(in))
@@ -287,7 +289,7 @@ def rule_stub(spec, param='in'):
             c.add(R('AT_ENTRY(%s)' % param, 'stub-at-entry-iterator', ('C01', 'C02')))
         for extra in s.get('requires', []):
             c.add(extra)
-        c.add(A('IT_FIELDS(%s), g_turn, g_pos, g_done, g_iter, g_last, g_called[%d], g_ok[%d], g_len[%d], g_ncalls[%d], vf_exc, vf_exc_counter, g_exc_obj, g_exc_type' % (param, i, i, i, i)))
+        c.add(A('IT_FIELDS(%s), g_turn, g_pos, g_done, g_iter, g_last, g_called[%d], g_ok[%d], g_len[%d], g_ncalls[%d], g_ae[%d], g_re[%d], g_lp[%d], vf_exc, vf_exc_counter, g_exc_obj, g_exc_type' % (param, i, i, i, i, i, i, i)))
         c.add(E('CUR_IN_WINDOW(%s)' % param, 'stub'))    # first: when assumed it (re)builds the cursor; the clauses below then constrain it
         c.add(E('BOOL01(RET) && BOOL01(g_ok[%d]) && BOOL01(vf_exc.pending) && BOOL01(g_done)' % i, 'stub'))
         c.add(E('PTRS_OK(%s) && CNT_POS(%s) && IN_END(%s)==OLD(IN_END(%s)) && IN_BEGIN(%s)==OLD(IN_BEGIN(%s))' % ((param,) * 6), 'stub'))
@@ -309,8 +311,9 @@ def rule_stub(spec, param='in'):
         c.add(E(fail, 'stub'))
         if m == 0:
             c.add(E('(!vf_exc.pending && !g_ok[%d]) ==> ITER_UNCHANGED(%s)' % (i, param), 'stub'))
-        if s.get('progress'):
-            c.add(E('(!vf_exc.pending && g_ok[%d]) ==> g_len[%d] > 0' % (i, i), 'stub'))
+        c.add(E('(!vf_exc.pending && g_ok[%d] && g_c[%d]) ==> g_len[%d] > 0' % (i, i, i), 'stub'))
+        c.add(E('g_ae[%d] == (OLD(g_ae[%d]) || OLD(g_pos) == g_e_off) && g_re[%d] == (OLD(g_re[%d]) || (OLD(g_ncalls[%d]) > 0 && OLD(g_pos) == OLD(g_lp[%d]))) && g_lp[%d] == OLD(g_pos)'
+                % ((i,) * 7), 'stub'))
         return c
     return mk
 
@@ -318,11 +321,12 @@ def rule_stub(spec, param='in'):
 def comb_requires(param='in'):
     return R('VALID_PRE(%s) && EXC_OK && g_turn == 0 && g_pos == OFF(CUR(%s)) && g_done == 0 && g_iter == 0 && AT_ENTRY(%s)'
              ' && g_called[0]==0 && g_called[1]==0 && g_called[2]==0 && g_called[3]==0'
-             ' && g_ncalls[0]==0 && g_ncalls[1]==0 && g_ncalls[2]==0 && g_ncalls[3]==0 && g_exc_obj == 0 && vf_exc_counter < 1000000' % (param, param, param))
+             ' && g_ncalls[0]==0 && g_ncalls[1]==0 && g_ncalls[2]==0 && g_ncalls[3]==0'
+             ' && !g_ae[0] && !g_ae[1] && !g_ae[2] && !g_ae[3] && !g_re[0] && !g_re[1] && !g_re[2] && !g_re[3] && g_exc_obj == 0 && vf_exc_counter < 1000000' % (param, param, param))
 
 
 def comb_assigns(param='in'):
-    return A('IT_FIELDS(%s), g_turn, g_pos, g_done, g_iter, g_last, g_called, g_ok, g_len, g_ncalls, vf_exc, vf_exc_counter, g_exc_obj, g_exc_type' % param)
+    return A('IT_FIELDS(%s), g_turn, g_pos, g_done, g_iter, g_last, g_called, g_ok, g_len, g_ncalls, g_ae, g_re, g_lp, vf_exc, vf_exc_counter, g_exc_obj, g_exc_type' % param)
 
 
 def comb_common(m, param='in', props_rewind=('C02',), exc_props=('C05',)):
@@ -341,5 +345,67 @@ def comb_common(m, param='in', props_rewind=('C02',), exc_props=('C05',)):
 def comb_harness(intype_c, tracking, call, base='_b0'):
     return input_harness(intype_c, tracking, call, base=base,
                          pre_call='  SET_ENTRY(&in); g_turn = 0; g_pos = OFF(CUR(&in)); g_done = 0; g_iter = 0; g_exc_obj = 0;\n'
-                                  '  for (int i = 0; i < NR; ++i) { g_called[i] = 0; g_ncalls[i] = 0; }\n'
+                                  '  for (int i = 0; i < NR; ++i) { g_called[i] = 0; g_ncalls[i] = 0; g_ae[i] = 0; g_re[i] = 0; }\n'
                                   '  vf_exc.pending = 0; __CPROVER_assume(vf_exc_counter < 1000000);\n')
+
+
+def c11_premises(tr, nsub, bound=None):
+    """C11 premises of one combinator against the expressions read from the real analyze_traits (tools/traits.py):
+    P1 consumption is conservative; P3a every sub-rule that can be called at the entry position is one the analysis
+    visits without accumulated consumption; P3b a repetition the analysis models by a back-reference makes progress
+    between two calls of the same sub-rule, and where the traits have no back-reference ("bounded repetition") every
+    sub-rule is called at most `bound` times (bound = documented call count, None = never twice at one position).
+    tr is None when the rule has no analyze_traits at all (analyze<G>() does not compile: nothing to certify)."""
+    if tr is None:
+        return []
+    P = ('C11',)
+    out = []
+    if tr['consumes'] != '0':
+        out.append(E('(!vf_exc.pending && RET && (%s)) ==> CONSUMED(in) > 0' % tr['consumes'], 'ANALYZE-TRAIT-CONSUMPTION-IS-CONSERVATIVE', P))
+    for i in range(nsub):
+        acc = tr['left'].get(str(i), '1')
+        if acc != '0':
+            out.append(E('(%s) ==> !g_ae[%d]' % (acc, i), 'ANALYZE-TRAIT-LISTS-EVERY-LEFT-CALL', P))
+    if nsub == 0:
+        return out
+    if tr['back'] is None:
+        if bound is None:
+            out.append(E(' && '.join('!g_re[%d]' % i for i in range(nsub)), 'ANALYZE-TRAIT-WITHOUT-BACK-REFERENCE-NO-REPETITION-IN-PLACE', P))
+        else:
+            out.append(E(' && '.join('g_ncalls[%d] <= %d' % (i, bound) for i in range(nsub)), 'ANALYZE-TRAIT-WITHOUT-BACK-REFERENCE-BOUNDED-REPETITION', P))
+    elif tr['back'] != '0':
+        out.append(E('(%s) ==> (%s)' % (tr['back'], ' && '.join('!g_re[%d]' % i for i in range(nsub))), 'ANALYZE-TRAIT-REPETITION-MAKES-PROGRESS', P))
+    return out
+
+
+def c11_loop_inv(tr, nsub):
+    """loop-invariant conjunct carrying P3b through an unbounded repetition"""
+    if tr is None or tr['back'] == '0':
+        return ''
+    inv = ' && '.join('!g_re[%d] && (g_ncalls[%d] > 0 ==> g_lp[%d] < g_pos)' % (i, i, i) for i in range(nsub))
+    if tr['back'] is None:
+        return '/*@IF C11@*/ && ' + inv + '/*@FI@*/'
+    return '/*@IF C11@*/ && ((%s) ==> (%s))/*@FI@*/' % (tr['back'], inv)
+
+
+_TRAITS = {}
+
+
+TRAIT_INCLUDES = ('tao/pegtl/contrib/utf16.hpp', 'tao/pegtl/contrib/utf32.hpp', 'tao/pegtl/contrib/uint8.hpp', 'tao/pegtl/contrib/uint16.hpp',
+                  'tao/pegtl/contrib/uint32.hpp', 'tao/pegtl/contrib/uint64.hpp', 'tao/pegtl/contrib/abnf.hpp')
+
+
+def traits_of(group, rules, decls='', includes=()):
+    """{key: traits record} for the rules of one group, computed once per process from the real analyze_traits"""
+    import traits
+    if group not in _TRAITS:
+        _TRAITS[group] = traits.trait_exprs(rules, decls=decls, includes=TRAIT_INCLUDES + tuple(includes))
+    return _TRAITS[group]
+
+
+def c11_leaf(tr, param='in'):
+    """P1 for a rule without sub-rules: where the real traits say "always consumes on success" it does"""
+    if tr is None or tr['consumes'] == '0':
+        return []
+    assert tr['consumes'] == '1', tr
+    return [E('(!vf_exc.pending && RET) ==> PROGRESS(%s)' % param, 'ANALYZE-TRAIT-CONSUMPTION-IS-CONSERVATIVE', ('C11',))]
